@@ -797,6 +797,15 @@ class Executor:
             for i, tag in reversed(list(enumerate(VTAGS))):
                 expr = z3.IntVal(i) if expr is None else z3.If(is_tag(v.t, tag), i, expr)
             return IntV(expr, "isize")
+        if isinstance(v, Obj) and v.kind == "expr" and isinstance(v.key, int):
+            # an opaque sub-expression has SOME node kind: an unconstrained symbolic discriminant (code that branches on the kind of an
+            # operand is explored for every kind; projecting into the operand stays unsupported)
+            en = self.prog.layouts.canon(["expr", "Expr"])
+            n = len(self.prog.layouts.enums.get(en, []))
+            if n:
+                t = z3.Int(f"leaf{v.key}.kind")
+                self.assume(z3.And(t >= 0, t < n))
+                return IntV(t, "isize")
         raise Unsupported(f"discriminant of {type(v).__name__} {v}")
 
     def set_discriminant(self, ref, n):
